@@ -38,6 +38,13 @@ type Rec struct {
 	Full   json.RawMessage `json:"full"`
 	StrHdr *string         `json:"strhdr"`
 	Layer  string          `json:"layer"`
+	// C12 history records: steps {wire, cuts} and {reset: true} / {init: true} applied to ONE object
+	Hist []struct {
+		Wire  []int `json:"wire"`
+		Cuts  []int `json:"cuts"`
+		Reset bool  `json:"reset"`
+		Init  bool  `json:"init"`
+	} `json:"hist"`
 }
 
 var sigStringRe = regexp.MustCompile(`^([0-9a-f][0-9a-f]{0,8}I[0-9a-f]{6}F[0-9a-f]{4}V[0-9a-f]{4})?$`)
@@ -175,6 +182,15 @@ func runReplay(job *Job) Result {
 			} else if canon(r.Res) != canon([]byte(got)) {
 				bad = "differs"
 			}
+			if r.Fn == "URICmp" && bad == "" {
+				bad = uriCmpLaws(r.Args, got)
+				if bad != "" {
+					r.Src = "decl"
+					if r.Prop == "" {
+						r.Prop = "C15"
+					}
+				}
+			}
 			if r.Fn == "GetMsgSig" && bad == "" {
 				gm, _ := parseAny(got).(map[string]interface{})
 				str, _ := gm["String"].(string)
@@ -240,6 +256,32 @@ func runReplay(job *Job) Result {
 		}
 		buf := bytesOf(r.Wire)
 		x := NewObj(c)
+		if len(r.Hist) > 0 { // everything but the last step: use, reset, ... ; the last step is replayed below
+			for _, st := range r.Hist[:len(r.Hist)-1] {
+				if st.Reset {
+					x.reset()
+					continue
+				}
+				if st.Init {
+					if ri, ok := x.(reiniter); ok {
+						ri.reinit()
+					} else {
+						x.reset()
+					}
+					continue
+				}
+				hb := bytesOf(st.Wire)
+				o := c.Start
+				for _, cut := range st.Cuts {
+					var v string
+					o, v = Call(x, prefixOf(hb, cut), o)
+					res.Stats.Calls++
+					if v != "more" {
+						break
+					}
+				}
+			}
+		}
 		offs := c.Start
 		verdict := "more"
 		cuts := r.Cuts
@@ -320,4 +362,35 @@ func runReplay(job *Job) Result {
 	res.Extra["decl_mismatch"] = declBad
 	res.Extra["drift_samples"] = driftSamples
 	return res
+}
+
+// uriCmpLaws (C15, relational part on REAL results): the entry points agree with separate parsing (incl. the URIs handed
+// back), comparison is symmetric, and ignoring one more component can only turn "different" into "equal".
+func uriCmpLaws(args json.RawMessage, got string) string {
+	g, _ := parseAny(got).(map[string]interface{})
+	if g == nil || g["err1"] != "ok" || g["err2"] != "ok" {
+		return ""
+	}
+	eq, _ := g["eq"].(bool)
+	if g["peq"] != g["eq"] || g["req"] != g["eq"] || g["perr"] != "ok" || g["rerr"] != "ok" || g["r1ok"] != true || g["r2ok"] != true {
+		return "entry points disagree with parsing each URI separately: " + got
+	}
+	var a fnArgs
+	json.Unmarshal(args, &a)
+	sw, _ := json.Marshal(map[string]interface{}{"s": a.S2, "s2": a.S, "flags": a.Flags})
+	if h, _ := parseAny(callFn("URICmp", sw)).(map[string]interface{}); h != nil && h["eq"] != g["eq"] {
+		return fmt.Sprintf("not symmetric: eq(a,b)=%v eq(b,a)=%v", g["eq"], h["eq"])
+	}
+	if eq {
+		for bit := 1; bit < 64; bit <<= 1 {
+			if a.Flags&bit != 0 {
+				continue
+			}
+			mo, _ := json.Marshal(map[string]interface{}{"s": a.S, "s2": a.S2, "flags": a.Flags | bit})
+			if h, _ := parseAny(callFn("URICmp", mo)).(map[string]interface{}); h != nil && h["eq"] != true {
+				return fmt.Sprintf("ignoring one more component (flag %d) turned equal into different", bit)
+			}
+		}
+	}
+	return ""
 }
